@@ -239,6 +239,28 @@ CLAIMED = {
              "'not minimal' from 'certificate not found' are harness code; 2D oriented bounds are not covered. "
              "Known finding: minimum_nsphere is not minimal when the minimum ball has 2 or 3 support points.",
         technique="Lean 4 proof (verified result checkers = translation validation of each output) + differential run"),
+    "C20": dict(
+        category="proof", design_ref="DESIGN.md 5 C20",
+        text="Lean 4 theorems: (1) a resource-skeleton language (open, set was_opened, calls that may raise, "
+             "raise, return, branches, try/finally, try/except, guarded close) with a relational semantics and "
+             "an executable enumerator proved complete for it, so that `safe skeleton = true` (decided by the "
+             "kernel) implies that no execution - normal, early return, exception from any call - ends with a "
+             "file the loader opened still open; the skeletons of _parse_file_args, load_scene and load_path "
+             "are REGENERATED FROM THE PYTHON SOURCE on every run (ast translator) for the two scenarios 'a "
+             "path was given' / 'anything else', and their obligations re-checked; (2) binary STL accepts only "
+             "files of exactly the announced length (no allocation beyond the input) and rejects the rest "
+             "before reading records; GLB reads are bounded by the bytes present and the chunk loop runs at "
+             "most once per 8 bytes; the PLY header scan consumes each line once and rejects a header "
+             "without end_header. Tied to the code by systematic fault injection: truncations, byte "
+             "corruptions, size fields (count x 50 wrapping 2^32 included), chunk swaps / duplications, "
+             "splices and random bytes over 17 formats x load / load_mesh / load_scene / load_path x file "
+             "object / path / path with explicit file_type, each in a forked worker under RLIMIT_AS and a "
+             "timer, with the open-file table compared while the result or exception is alive; the Lean "
+             "decoders' accept / reject is compared with the loaders'.",
+        note="Trusted: Lean kernel (+propext/Classical.choice/Quot.sound); the skeleton translator (PURE call "
+             "list, scenario table); time / memory / native crashes are observed per explored input only "
+             "(partial). Two defects repaired (load_path leak, STL count overflow).",
+        technique="Lean 4 proof (model regenerated from source by translator + verified enumerator; decoder bounds) + fault-injection correspondence"),
     "C17": dict(
         category="proof", design_ref="DESIGN.md 5 C17",
         text="Lean 4 theorems over a heap of mutable cells: a sound disjointness checker; the frame theorem (if the "
